@@ -87,6 +87,8 @@ enum Ret {
     Bool(bool),
     OptTask(Option<model::Props>),
     Tasks(TaskSet),
+    /// a collection that may list a task more than once (order-free, multiplicity kept)
+    TaskList(Vec<(Uuid, model::Props)>),
     Uuids(Vec<Uuid>),
     Uuid(Uuid),
     Ops(Vec<Operation>),
@@ -111,7 +113,11 @@ fn mk_op(kind: u8, t: u8, p: u8, val: &Option<String>) -> Operation {
     let uuid = task_uuid(t);
     match kind % 4 {
         0 => Operation::Create { uuid },
-        1 => Operation::Delete { uuid, old_task: [(prop_name(p), "old".to_string())].into_iter().collect() },
+        1 => Operation::Delete {
+            uuid,
+            // zero to five properties of the deleted task (kind's upper bits pick how many)
+            old_task: (0..(kind / 4) % 6).map(|k| (prop_name(p.wrapping_add(k)), format!("old{k}"))).collect(),
+        },
         2 => Operation::Update { uuid, property: prop_name(p), old_value: Some("o\u{e9}\"".into()), value: val.clone(), timestamp: Utc.timestamp_opt(1_700_000_000 + t as i64, 123_000_000).unwrap() },
         _ => Operation::UndoPoint,
     }
@@ -126,7 +132,11 @@ async fn do_call(txn: &mut dyn StorageTxn, c: &StCall) -> Ret {
     }
     match c {
         StCall::GetTask(t) => r(txn.get_task(task_uuid(*t)).await, |v| Ret::OptTask(v.map(|m| m.into_iter().collect()))),
-        StCall::GetPending => r(txn.get_pending_tasks().await, |v| Ret::Tasks(model::canon_tasks(v))),
+        StCall::GetPending => r(txn.get_pending_tasks().await, |v| {
+            let mut l: Vec<(Uuid, model::Props)> = v.into_iter().map(|(u, m)| (u, m.into_iter().collect())).collect();
+            l.sort();
+            Ret::TaskList(l)
+        }),
         StCall::Create(t) => r(txn.create_task(task_uuid(*t)).await, Ret::Bool),
         StCall::SetTask(t, kv) => r(txn.set_task(task_uuid(*t), kv.iter().cloned().collect::<TaskMap>()).await, |_| Ret::Unit),
         StCall::Delete(t) => r(txn.delete_task(task_uuid(*t)).await, Ret::Bool),
@@ -547,7 +557,7 @@ fn gen_txn(rng: &mut Rng, max_calls: usize) -> TxnScript {
             14 => StCall::TaskOps(t),
             15 => StCall::Unsynced,
             16 => StCall::NumUnsynced,
-            17..=20 => StCall::AddOp { kind: rng.below(4) as u8, t, p: rng.below(3) as u8, val: if rng.chance(1, 4) { None } else { Some(rng.pick(VALS).to_string()) } },
+            17..=20 => StCall::AddOp { kind: rng.below(24) as u8, t, p: rng.below(3) as u8, val: if rng.chance(1, 4) { None } else { Some(rng.pick(VALS).to_string()) } },
             21 => StCall::RemoveOp { wrong: rng.chance(1, 4) },
             22 => StCall::SyncComplete,
             23 => StCall::GetWs,
@@ -583,10 +593,15 @@ fn gen_story_txn(rng: &mut Rng) -> TxnScript {
             3 => {
                 calls.push(StCall::Delete(t));
                 if rng.chance(1, 2) {
-                    calls.push(StCall::AddOp { kind: 1, t, p: 0, val: None });
+                    calls.push(StCall::AddOp { kind: 1 + 4 * rng.below(6) as u8, t, p: 0, val: None });
+                    if rng.chance(1, 3) {
+                        // undo-like: take the logged operation back (as read from the store)
+                        calls.push(StCall::RemoveOp { wrong: false });
+                        calls.push(StCall::Unsynced);
+                    }
                 }
             }
-            4 => calls.push(StCall::AddOp { kind: rng.below(4) as u8, t, p: rng.below(3) as u8, val: Some("y".into()) }),
+            4 => calls.push(StCall::AddOp { kind: rng.below(24) as u8, t, p: rng.below(3) as u8, val: Some("y".into()) }),
             5 => {
                 calls.push(StCall::TaskOps(t));
                 calls.push(StCall::GetTask(t));
@@ -824,7 +839,7 @@ pub fn run_c17(scv: &Value, want_log: bool) -> RunResult {
             w.borrow_mut().violations.push(Violation { oracle: "liveness".into(), sig: "c17-steps".into(), detail: "handles did not finish within 100000 steps".into() });
             break;
         }
-        let holder = (0..n).find(|i| in_txn[*i]);
+        let holder = (0..n).find(|i| in_txn[*i] && blocked != Some(*i));
         let (pick, nowait) = if let (Some(b), None) = (blocked, holder) {
             // the lock is free again: the waiting handle goes first (two waiters would be
             // ordered by SQLite's real-time back-off, which the simulator does not own)
@@ -856,9 +871,21 @@ pub fn run_c17(scv: &Value, want_log: bool) -> RunResult {
         sched_hash.write_u64(pick as u64);
         now += 1_000_000_000;
         crate::interpose::set_now_ns(now);
-        let out = if nowait { exec::step_nowait(pick, nodes[pick].as_mut().unwrap()) } else { exec::step(pick, nodes[pick].as_mut().unwrap()) };
+        // while no handle is waiting for a lock, every step detects a wait deterministically (a
+        // BEGIN issued under contention is expected to block; any other request that blocks is
+        // handled the same way); while one waits, the others are stepped to completion
+        let _ = nowait;
+        let mut out = if blocked.is_none() { exec::step_nowait(pick, nodes[pick].as_mut().unwrap()) } else { exec::step(pick, nodes[pick].as_mut().unwrap()) };
+        if out == PollOutcome::Blocked && (holder.is_none() || holder == Some(pick)) {
+            // no other handle is inside a transaction: the lock is only held by a transaction that
+            // was dropped and is being rolled back by its actor thread right now; wait for it
+            out = exec::step(pick, nodes[pick].as_mut().unwrap());
+        }
         if blocked == Some(pick) && !matches!(out, PollOutcome::Blocked) {
             blocked = None;
+        }
+        if std::env::var_os("TCSIM_TRACE17").is_some() {
+            eprintln!("step {steps}: node {pick} nowait={nowait} -> {out:?}");
         }
         match out {
             PollOutcome::Parked(l) => {
@@ -872,7 +899,9 @@ pub fn run_c17(scv: &Value, want_log: bool) -> RunResult {
             }
             PollOutcome::Blocked => {
                 blocked = Some(pick);
-                parked[pick] = Some("st.txn(blocked)");
+                if parked[pick] == Some("st.txn") {
+                    parked[pick] = Some("st.txn(blocked)");
+                }
                 *w.borrow_mut().probes.entry("begin_blocked_by_other_handle".into()).or_insert(0) += 1;
             }
             PollOutcome::Crashed => {
